@@ -6,6 +6,7 @@ import (
 	stdgzip "compress/gzip"
 	"fmt"
 	"io"
+	"time"
 
 	fgzip "github.com/intel/fastgo/compress/gzip"
 	"github.com/intel/fastgo/verif/env"
@@ -19,13 +20,30 @@ func init() {
 	register(&Prop{
 		ID:       "C08",
 		Category: "model_checking",
-		Rule: "every member sequence of length 1..3 (quick) / 1..4 (thorough) over an alphabet of 8 members (payload in {empty, 1 byte, 300 B text, 70 KB}; encoder in {fastgo 1, fastgo -2, compress/gzip 6, compress/gzip 0}; with/without Name) x trailing data in {none, 8 zero bytes, 100 non-gzip bytes} x mode in {default multistream, Multistream(false) + Reset loop} x bufio size in {16, 512, 4096, 65536} x Read policy in {1 MiB, 4096, 1}; " +
-			"oracle: default mode without trailing data: the concatenation of the payloads then io.EOF; with trailing data: whatever compress/gzip does on the same input; member by member: payload and header of each member in order, the Reset after the last member behaves as compress/gzip's, and the source still holds the trailing data; non-trivial = at least two members",
+		Rule: "every member sequence of length 1..3 (quick) / 1..4 (thorough) over an alphabet of 8 members (payload in {empty, 1 byte, 300 B text, 70 KB}; encoder in {fastgo 1, fastgo -2, compress/gzip 6, compress/gzip 0}; with/without Name, Comment, Extra (6, 6 and 5 bytes), ModTime, OS) x trailing data in {none, 8 zero bytes, 100 non-gzip bytes} x mode in {default multistream, Multistream(false) + Reset loop} x bufio size in {16, 512, 4096, 65536} x Read policy in {1 MiB, 4096, 1}; " +
+			"oracle: default mode without trailing data: the concatenation of the payloads then io.EOF; with trailing data: whatever compress/gzip does on the same input; default mode: the header shown at the end is the first member's; member by member: payload and complete header of each member in order as compress/gzip reports them, headers kept by the caller unchanged after the later members have been read, the Reset after the last member behaves as compress/gzip's, and the source still holds the trailing data; non-trivial = at least two members",
 		Assumptions: []string{"compress/gzip defines the outcome for inputs with trailing non-gzip data"},
 		Quick:       TierSpec{MaxDev: -1, Shards: 4, ShardDepth: 3, BudgetS: 150},
 		Thorough:    TierSpec{MaxDev: -1, Shards: 8, ShardDepth: 3, BudgetS: 1700},
 		Harness:     c08Harness,
 	})
+}
+
+// gzHeaderDiff compares a header handed out by fastgo with compress/gzip's for the same member.
+func gzHeaderDiff(f fgzip.Header, s stdgzip.Header) string {
+	switch {
+	case f.Name != s.Name:
+		return fmt.Sprintf("Name %q, compress/gzip %q", f.Name, s.Name)
+	case f.Comment != s.Comment:
+		return fmt.Sprintf("Comment %q, compress/gzip %q", f.Comment, s.Comment)
+	case !bytes.Equal(f.Extra, s.Extra):
+		return fmt.Sprintf("Extra %q, compress/gzip %q", f.Extra, s.Extra)
+	case !f.ModTime.Equal(s.ModTime):
+		return fmt.Sprintf("ModTime %v, compress/gzip %v", f.ModTime, s.ModTime)
+	case f.OS != s.OS:
+		return fmt.Sprintf("OS %d, compress/gzip %d", f.OS, s.OS)
+	}
+	return ""
 }
 
 type gzMember struct {
@@ -40,10 +58,10 @@ func c08Harness(cfg *Cfg) func(x *mc.Exec) {
 	big := pieces.Text(70000, cfg.Seed+1)
 	alpha := []gzMember{
 		{"empty/std6", gzipMember(nil, 6, stdgzip.Header{}, false), nil, ""},
-		{"1byte/fast1+name", gzipMember([]byte{'Q'}, 1, stdgzip.Header{Name: "q"}, true), []byte{'Q'}, "q"},
+		{"1byte/fast1+name+extra6", gzipMember([]byte{'Q'}, 1, stdgzip.Header{Name: "q", Extra: []byte("BC\x02\x00\x11\x11")}, true), []byte{'Q'}, "q"},
 		{"300B/fast1", gzipMember(text, 1, stdgzip.Header{}, true), text, ""},
-		{"300B/fast-2+name", gzipMember(text, -2, stdgzip.Header{Name: "huff"}, true), text, "huff"},
-		{"300B/std6+name", gzipMember(text, 6, stdgzip.Header{Name: "std"}, false), text, "std"},
+		{"300B/fast-2+name+extra6+comment", gzipMember(text, -2, stdgzip.Header{Name: "huff", Extra: []byte("BC\x02\x00\x22\x22"), Comment: "second", ModTime: time.Unix(1700000000, 0), OS: 3}, true), text, "huff"},
+		{"300B/std6+name+extra5", gzipMember(text, 6, stdgzip.Header{Name: "std", Extra: []byte("XY\x01\x003"), ModTime: time.Unix(1600000000, 0)}, false), text, "std"},
 		{"300B/std0", gzipMember(text, 0, stdgzip.Header{}, false), text, ""},
 		{"70K/fast1", gzipMember(big, 1, stdgzip.Header{}, true), big, ""},
 		{"empty/fast-2+name", gzipMember(nil, -2, stdgzip.Header{Name: "e"}, true), nil, "e"},
@@ -136,6 +154,11 @@ func c08Harness(cfg *Cfg) func(x *mc.Exec) {
 				x.Fail("C08 output-differs "+site, "%s: %s (compress/gzip is 'want')", desc, diffDesc(o.Out, sout))
 				return
 			}
+			// the header shown after all members have been read is still the first member's, as with compress/gzip
+			if d := gzHeaderDiff(zr.Header, sr.Header); d != "" {
+				x.Fail("C08 header-after-all-members "+site, "%s: after the last member the Reader shows %s", desc, d)
+				return
+			}
 			x.Outcome(fmt.Sprintf("%s %d members -> %d bytes %s", site, len(seq), len(o.Out), errClass(o.Err)))
 			return
 		}
@@ -153,6 +176,19 @@ func c08Harness(cfg *Cfg) func(x *mc.Exec) {
 		if err != nil || serr != nil {
 			x.Fail("C08 constructor-error "+site, "%s: fastgo %v, compress/gzip %v", desc, err, serr)
 			return
+		}
+		// headers as handed out, kept the way a caller keeps them (a copy of the struct: Extra still points at what the
+		// Reader handed out); they are compared at once and again after all members have been read
+		var keptF []fgzip.Header
+		var keptS []stdgzip.Header
+		recheck := func() bool {
+			for j := range keptF {
+				if d := gzHeaderDiff(keptF[j], keptS[j]); d != "" {
+					x.Fail("C08 kept-header-changed "+site, "%s: the header of member %d, kept by the caller, changed while later members were read: %s", desc, j, d)
+					return false
+				}
+			}
+			return true
 		}
 		for i := 0; ; i++ {
 			zr.Multistream(false)
@@ -174,12 +210,21 @@ func c08Harness(cfg *Cfg) func(x *mc.Exec) {
 				x.Fail("C08 member-header "+site, "%s: member %d header name %q, want %q", desc, i, zr.Header.Name, seq[i].hdrName)
 				return
 			}
+			if d := gzHeaderDiff(zr.Header, sr.Header); d != "" {
+				x.Fail("C08 member-header "+site, "%s: member %d header: %s", desc, i, d)
+				return
+			}
+			keptF = append(keptF, zr.Header)
+			keptS = append(keptS, stdgzip.Header{Name: sr.Header.Name, Comment: sr.Header.Comment, Extra: append([]byte(nil), sr.Header.Extra...), ModTime: sr.Header.ModTime, OS: sr.Header.OS})
 			io.Copy(io.Discard, sr)
 			if i == len(seq)-1 && lastAction == 1 {
 				// the source must still hold exactly the trailing data
 				left, _ := io.ReadAll(fbr)
 				if !bytes.Equal(left, tr.stream) {
 					x.Fail("C08 trailing-data-not-intact "+site, "%s: %d bytes left in the source after the last member's io.EOF, want the %d trailing bytes", desc, len(left), len(tr.stream))
+					return
+				}
+				if !recheck() {
 					return
 				}
 				break
@@ -201,6 +246,9 @@ func c08Harness(cfg *Cfg) func(x *mc.Exec) {
 				sl, _ := io.ReadAll(sbr)
 				if !bytes.Equal(fl, sl) {
 					x.Fail("C08 trailing-data-consumed "+site, "%s: %d bytes left in the source after the last Reset, compress/gzip leaves %d", desc, len(fl), len(sl))
+					return
+				}
+				if !recheck() {
 					return
 				}
 				break
